@@ -23,7 +23,7 @@ def fold(fx, f, env, effects=(), max_paths=4096, depth=0, call_values=None):
 
     def call_hook(x, env_):
         if call_values is not None:
-            r = call_values(x)
+            r = call_values(x, env_)
             if r is not None:
                 return r
         g = fx.callee(f, x)
@@ -52,11 +52,12 @@ def fold(fx, f, env, effects=(), max_paths=4096, depth=0, call_values=None):
         names = bound | set(store) | taint
         return contains(x, lambda n_: n_.get('k') in ('ref', 'local', 'paramof') and n_.get('n') in names)
 
-    def walk(b, seen, eff, store=None, taint=None):
+    def walk(b, seen, eff, store=None, taint=None, effenv=()):
         if len(out) > max_paths:
             raise Unfoldable('too many paths in %s' % f.n)
         blk = f.blocks[b]
         eff = list(eff)
+        effenv = list(effenv)
         store = dict(store or {})
         taint = set(taint or ())
         ret = None
@@ -81,28 +82,34 @@ def fold(fx, f, env, effects=(), max_paths=4096, depth=0, call_values=None):
                         assign(d['n'], d['init'])
             elif isinstance(x, dict) and x.get('k') == 'assign':
                 l = strip(f.resolve(x.get('l')))
-                if isinstance(l, dict) and l.get('k') == 'ref' and l.get('dk') == 'local':
+                if isinstance(l, dict) and (l.get('k') == 'ref' and l.get('dk') == 'local' or l.get('k') == 'mem' and l.get('n') in ev):
                     if x.get('op', '=') == '=':
                         assign(l['n'], x.get('r'))
                     else:
                         store.pop(l['n'], None); ev.pop(l['n'], None); taint.add(l['n'])
+            elif isinstance(x, dict) and x.get('k') == 'un' and x.get('op') in ('pre++', 'post++', 'pre--', 'post--'):
+                l = strip(f.resolve(x.get('e')))
+                if isinstance(l, dict) and l.get('k') in ('ref', 'mem') and l.get('n') in ev and isinstance(ev.get(l['n']), int):
+                    store[l['n']] = ev[l['n']] + (1 if '++' in x['op'] else -1)
+                    ev[l['n']] = store[l['n']]
             rx = f.resolve(x)
             if isinstance(rx, dict) and rx.get('k') == 'call' and callee_name(rx) in effects:
                 eff.append((callee_name(rx), callee_cls(rx), rx, blk.lines[i] if hasattr(blk, 'lines') else 0))
+                effenv.append({k_: v_ for k_, v_ in ev.items() if isinstance(v_, int)})
             if isinstance(x, dict) and x.get('k') == 'ret':
                 e = x.get('e')
                 try:
                     ret = ieval(origin(f, e), ev) if e is not None else None
                 except (ValueError, Overflow, KeyError, TypeError):
                     ret = 'unknown' if e is not None else None
-                out.append({'effects': eff, 'ret': ret, 'end': b})
+                out.append({'effects': eff, 'ret': ret, 'end': b, 'envs': effenv})
                 return
         if getattr(blk, 'noret', False):
-            out.append({'effects': eff, 'ret': None, 'end': b, 'noret': True})
+            out.append({'effects': eff, 'ret': None, 'end': b, 'noret': True, 'envs': effenv})
             return
         succ = [s for s in blk.succ]
         if b == f.exit or not succ:
-            out.append({'effects': eff, 'ret': None, 'end': b})
+            out.append({'effects': eff, 'ret': None, 'end': b, 'envs': effenv})
             return
         nxt = None
         if blk.term and blk.term.get('cls') == 'SwitchStmt':
@@ -134,7 +141,7 @@ def fold(fx, f, env, effects=(), max_paths=4096, depth=0, call_values=None):
                 continue
             s2 = dict(seen)
             s2[key] = s2.get(key, 0) + 1
-            walk(s, s2, eff, store, taint)
+            walk(s, s2, eff, store, taint, effenv)
 
     walk(f.entry, {}, [])
     return out
